@@ -6,10 +6,17 @@
    PARTIAL.  Proved: the stabilised softmax of the code is the documented ratio; for ANY objective and
    ANY sequence of trial points LMNN's accepted iterates have non-increasing objective, the result is
    never worse than the initial transformation, and with no iterations nothing is accepted.
-   NOT proved: that the analytic gradients are the derivatives for all n, d (checked per instance);
+   PROVED as well (C10_nca_gradient, Proofs/C10Grad.v, with Coquelicot's is_derive): for every number of points >= 2,
+   every dimension, every k x d transformation L (low rank included), every label vector and every direction E, the
+   value NCA hands to the optimiser (Model/NCAGrad.v: the code's softmax / mask / row sums, index by index) IS the
+   documented objective, and the gradient it hands over, 2 (X L^T)^T S X with S = W + W^T and diagonal -colsum(W), IS
+   the derivative of the documented objective: d/dt nca_obj (L + t E) at t = 0 equals <gradient, E>_F.  The gradient
+   model is compared with the code's own gradient on binary64 by props/c10.py (c10_nca_grad).
+   NOT proved: the same for MLKR's and LMNN's analytic gradients (checked per instance by central differences);
    that SciPy's L-BFGS-B never returns a worse point than x0 (checked per fit). *)
-From Coq Require Import List Reals.
-From ML Require Import Ops Vec VecR Objectives C10Proof.
+From Coq Require Import List ZArith Reals.
+From Coquelicot Require Import Coquelicot.
+From ML Require Import Ops Vec VecR MatR Objectives NCAGrad C10Proof C10Grad.
 Import ListNotations.
 Open Scope R_scope.
 
@@ -25,3 +32,25 @@ Proof.
   split; [intros St obj iters cur s H; apply (lmnn_result_le_init St obj iters cur s H) | intros; reflexivity].
 Qed.
 Print Assumptions C10_partial.
+
+(* NCA: the value and the gradient handed to the optimiser are the documented objective and its derivative *)
+Definition C10_nca_gradient_stmt : Prop :=
+  forall (k d : nat) (L E X : Rm) (y : list Z),
+    wfmR k d L -> wfmR k d E -> List.Forall (wfvR d) X -> (2 <= length X)%nat -> length y = length X ->
+    @nca_loss ROps exp L X y = @nca_obj ROps exp L X y /\
+    is_derive (fun t => @nca_obj ROps exp (line L E t) X y) 0 (frobR (@nca_grad ROps exp k d L X y) E).
+
+Theorem C10_nca_gradient : C10_nca_gradient_stmt.
+Proof.
+  intros k d L E X y HL HE HX Hn Hy. split.
+  - symmetry. apply nca_obj_is_loss, Hy.
+  - apply (is_derive_ext (fun t => @nca_loss ROps exp (line L E t) X y)).
+    + intro t. symmetry. apply nca_obj_is_loss, Hy.
+    + apply (nca_gradient_is_derivative k d L E X y HL HE HX Hn).
+Qed.
+Print Assumptions C10_nca_gradient.
+
+(* non-vacuity: three points in the plane, a rank-one 1 x 2 transformation *)
+Example C10_nca_gradient_nonvacuous :
+  wfmR 1 2 [[1; 2]] /\ wfmR 1 2 [[0; 1]] /\ List.Forall (wfvR 2) [[0; 0]; [1; 0]; [0; 3]] /\ (2 <= length [[0; 0]; [1; 0]; [0; 3]])%nat.
+Proof. repeat split; repeat constructor. Qed.
